@@ -524,7 +524,8 @@ impl Error {
                 if location.1 >= contents.data().len() {
                     token = "<end of file>";
                 } else {
-                    token = &contents.data()[location.0..location.1];
+                    // the span of an end-of-file error is one byte after the last token, which need not be a whole character
+                    token = contents.data().get(location.0..location.1).unwrap_or("<end of file>");
                 }
                 let expected_formatted = format_token_list(expected);
                 error(output, &format!("Unexpected token '{}', expected {}:",
